@@ -111,3 +111,53 @@
         assert!(off >= 0 && off < 32);
         unsafe { HCRC_AT[off as usize] }
     }
+
+    // ---- error detection (C06 "frames damaged by any one-, two- or three-bit error are never delivered")
+    // By Verus lemma_acceptance_depends_only_on_error a damaged block is accepted iff fold(0, e_data) == e_crc, and by
+    // lemma_syndrome_additive fold(0, e_data) is the XOR of the single-bit syndromes S_p = crc_increment(0, e_p).
+    // S_p is evaluated here with the REAL crc_increment for every bit position p of a 16-byte block (a shorter block of
+    // n bytes uses the entries of its last n bytes because leading zero bytes keep the register at 0; the 6
+    // CRC-protected header bytes likewise). No set of <= 3 flipped bits in data + CRC field may satisfy the condition:
+    //   1 data bit  + <= 2 CRC bits : weight(S_p) >= 3
+    //   2 data bits + <= 1 CRC bit  : weight(S_p ^ S_q) >= 2
+    //   3 data bits                 : S_p ^ S_q ^ S_r != 0
+    //   0 data bits + 1..3 CRC bits : fold(0, 0...0) == 0 != e_crc
+    fn syndrome(p: usize) -> u16 {
+        let mut e = [0u8; 16];
+        e[p / 8] = 1u8 << (p % 8);
+        crc_increment(0, &e)
+    }
+
+    // @harness ids=C06 tier=quick kind=proof units=link::crc::crc_increment timeout=900 note="error detection, one data bit: every single-bit syndrome has weight >= 3; all-zero block has syndrome 0"
+    #[kani::proof]
+    #[kani::unwind(18)]
+    fn vk_c06_crc_syndrome_weight1() {
+        let a: usize = kani::any();
+        kani::assume(a < 128);
+        assert!(syndrome(a).count_ones() >= 3);
+        assert!(crc_increment(0, &[0u8; 16]) == 0);
+        kani::cover!(a == 127);
+    }
+
+    // @harness ids=C06 tier=quick kind=proof units=link::crc::crc_increment timeout=900 note="error detection, two data bits: S_p ^ S_q has weight >= 2 for all p != q"
+    #[kani::proof]
+    #[kani::unwind(18)]
+    fn vk_c06_crc_syndrome_weight2() {
+        let a: usize = kani::any();
+        let b: usize = kani::any();
+        kani::assume(a < b && b < 128);
+        assert!((syndrome(a) ^ syndrome(b)).count_ones() >= 2);
+        kani::cover!(a == 0 && b == 127);
+    }
+
+    // @harness ids=C06 tier=quick kind=proof units=link::crc::crc_increment timeout=900 note="error detection, three data bits: S_p ^ S_q ^ S_r != 0 for all distinct p, q, r"
+    #[kani::proof]
+    #[kani::unwind(18)]
+    fn vk_c06_crc_syndrome_weight3() {
+        let a: usize = kani::any();
+        let b: usize = kani::any();
+        let c: usize = kani::any();
+        kani::assume(a < b && b < c && c < 128);
+        assert!((syndrome(a) ^ syndrome(b) ^ syndrome(c)) != 0);
+        kani::cover!(a == 0 && b == 64 && c == 127);
+    }
